@@ -300,7 +300,7 @@ def run(model, rep, tier):
     else:
         appends = [l_ for l_ in ast.walk(arm[0]) if isinstance(l_, ast.For) and src(l_.iter) == "origin.labels"]
         guards = [g for g in ast.walk(arm[0]) if isinstance(g, ast.If) and any(isinstance(b, ast.Raise) and "NameTooLong" in src(b) for b in g.body)
-                  and any(a == A("len(out)", ">", "255") for a in atoms(normalise_compare(g.test)))]
+                  and any(a[0].startswith("len(") and a[1] == ">" and a[2] == "255" for a in atoms(normalise_compare(g.test)))]
         okk = bool(appends) and bool(guards) and all(g.lineno > l_.lineno for g in guards for l_ in appends)
         rep.check(okk or not appends, "R-01.9", tw9.qualname, where(tw9, appends[0] if appends else arm[0]), "the bytes arm refuses a derelativized encoding above 255 octets",
                   "the arm that returns bytes appends the origin's labels and returns without `if len(out) > 255: raise NameTooLong`: a relative name plus origin longer than 255 octets is encoded "
